@@ -198,3 +198,193 @@ Proof.
   rewrite (uchar_as_char z Hzr). replace (0 + 1 * ip) with ip by lia.
   rewrite (store_ok m2 G_icmd ic) by (try exact Hic2; lia). xstep. reflexivity.
 Qed.
+
+(* ------------------------------------------------------------------ the queue read off the memory *)
+(* the unread keys ibuf[ibuf_pos .. ibuf_cnt) *)
+Definition unread (pos cnt : Z) (ib : block) : list val := firstn (Z.to_nat (cnt - pos)) (skipn (Z.to_nat pos) ib).
+(* the model's queue (keys = memory cells): used = ibuf_pos, the unread keys, the record icmd[0 .. icmd_pos) *)
+Definition queue_of (pos cnt : Z) (ib : block) (ip : Z) (ic : block) (tin : list val) : InputQueue.tq val :=
+  InputQueue.Build_tq (Z.to_nat pos) (unread pos cnt ib) tin (firstn (Z.to_nat ip) ic).
+(* the statics of term.c in memory m, with the invariant of the capacity model *)
+Definition term_at (m : mem) (pos cnt : Z) (ib : block) (ip : Z) (ic : block) : Prop :=
+  cell_at m G_ibuf_pos pos /\ cell_at m G_ibuf_cnt cnt /\ nth_error m G_ibuf = Some ib /\ Z.of_nat (length ib) = IBUFSZ /\
+  0 <= pos <= cnt /\ cnt <= IBUFSZ /\
+  cell_at m G_icmd_pos ip /\ nth_error m G_icmd = Some ic /\ Z.of_nat (length ic) = ICMDSZ /\ 0 <= ip <= ICMDSZ.
+
+Lemma unread_push_block (blk : block) pos cnt (src : list val) :
+  0 <= pos <= cnt -> (Z.to_nat cnt + length src <= length blk)%nat ->
+  unread pos (cnt + Z.of_nat (length src)) (push_block blk pos cnt src) = src ++ unread pos cnt blk.
+Proof.
+  intros Hp Hl. unfold unread, push_block.
+  rewrite skipn_app, firstn_length, Nat.min_l, Nat.sub_diag by lia.
+  rewrite (skipn_all2 (firstn _ blk)) by (rewrite firstn_length; lia). cbn [skipn app].
+  set (U := firstn (Z.to_nat (cnt - pos)) (skipn (Z.to_nat pos) blk)).
+  assert (HU : length U = Z.to_nat (cnt - pos)) by (unfold U; rewrite firstn_length, skipn_length; lia).
+  rewrite app_assoc. rewrite firstn_app. rewrite app_length, HU.
+  replace (Z.to_nat (cnt + Z.of_nat (length src) - pos)) with (length src + Z.to_nat (cnt - pos))%nat by lia.
+  rewrite Nat.sub_diag. cbn [firstn]. rewrite app_nil_r. apply firstn_all2. rewrite app_length. lia.
+Qed.
+Lemma firstn_push_block (blk : block) pos cnt (src : list val) :
+  0 <= pos <= cnt -> (Z.to_nat cnt <= length blk)%nat -> firstn (Z.to_nat pos) (push_block blk pos cnt src) = firstn (Z.to_nat pos) blk.
+Proof.
+  intros Hp Hl. unfold push_block. rewrite firstn_app, firstn_firstn, Nat.min_id, firstn_length, Nat.min_l, Nat.sub_diag by lia.
+  cbn [firstn]. apply app_nil_r.
+Qed.
+Lemma skipn_push_block (blk : block) pos cnt (src : list val) :
+  0 <= pos <= cnt -> (Z.to_nat cnt + length src <= length blk)%nat ->
+  skipn (Z.to_nat cnt + length src) (push_block blk pos cnt src) = skipn (Z.to_nat cnt + length src) blk.
+Proof.
+  intros Hp Hl. unfold push_block.
+  set (U := firstn (Z.to_nat (cnt - pos)) (skipn (Z.to_nat pos) blk)).
+  assert (HU : length U = Z.to_nat (cnt - pos)) by (unfold U; rewrite firstn_length, skipn_length; lia).
+  rewrite !app_assoc. rewrite skipn_app.
+  rewrite skipn_all2 by (rewrite !app_length, firstn_length; lia).
+  rewrite !app_length, firstn_length, HU, Nat.min_l by lia.
+  replace (Z.to_nat cnt + length src - (Z.to_nat pos + length src + Z.to_nat (cnt - pos)))%nat with 0%nat by lia. reflexivity.
+Qed.
+
+(* term_push on the C text moves the queue as the model InputQueue.term_push does and the counters as
+   CapDefs.t_step does; everything but ibuf and ibuf_cnt is unchanged *)
+Theorem term_push_refines m pos cnt ib ip ic bs os sblk n d fuel tin :
+  term_at m pos cnt ib ip ic -> nth_error m bs = Some sblk -> bs <> G_ibuf ->
+  0 <= n <= 2147483647 -> 0 <= os -> os + n <= Z.of_nat (length sblk) ->
+  let k := Z.min n (IBUFSZ - cnt) in
+  let s := firstn (Z.to_nat n) (skipn (Z.to_nat os) sblk) in
+  exists m' ib',
+    callf cprog fuel (S d) F_term_push [VPtr bs os; VInt n] m = Ok (VUndef, m') /\
+    term_at m' pos (cnt + k) ib' ip ic /\
+    queue_of pos (cnt + k) ib' ip ic tin = InputQueue.term_push (queue_of pos cnt ib ip ic tin) s /\
+    unread pos (cnt + k) ib' = firstn (Z.to_nat k) s ++ unread pos cnt ib /\
+    firstn (Z.to_nat pos) ib' = firstn (Z.to_nat pos) ib /\
+    skipn (Z.to_nat (cnt + k)) ib' = skipn (Z.to_nat (cnt + k)) ib /\
+    length m' = length m /\ (forall b, b <> G_ibuf -> b <> G_ibuf_cnt -> nth_error m' b = nth_error m b) /\
+    CapDefs.t_step (CapDefs.mkT pos cnt ip) (CapDefs.TPush n) = CapDefs.Ok (CapDefs.mkT pos (cnt + k) ip).
+Proof.
+  intros (Hpos & Hcnt & Hib & Hlen & Hpc & Hc & Hip & Hic & Hicl & Hipr) Hsrc Hne Hn Hos Hsl k s.
+  assert (Hk : 0 <= k <= n /\ cnt + k <= IBUFSZ) by (unfold k; lia).
+  set (src := firstn (Z.to_nat k) (skipn (Z.to_nat os) sblk)).
+  assert (Hsl' : length src = Z.to_nat k) by (unfold src; rewrite firstn_length, skipn_length; lia).
+  assert (Hs : firstn (Z.to_nat k) s = src) by (unfold s, src; rewrite firstn_firstn; f_equal; lia).
+  assert (Hslen : length s = Z.to_nat n) by (unfold s; rewrite firstn_length, skipn_length; lia).
+  assert (Lib : (G_ibuf < length m)%nat) by (apply nth_error_Some; congruence).
+  assert (Lcnt : (G_ibuf_cnt < length m)%nat) by (apply nth_error_Some; unfold cell_at in Hcnt; congruence).
+  assert (Hur : unread pos (cnt + k) (push_block ib pos cnt src) = src ++ unread pos cnt ib).
+  { replace k with (Z.of_nat (length src)) by lia. apply unread_push_block; lia. }
+  exists (upd (upd m G_ibuf (push_block ib pos cnt src)) G_ibuf_cnt [VInt (cnt + k)]), (push_block ib pos cnt src).
+  split; [exact (tr_term_push m pos cnt ib bs os sblk n d fuel Hpos Hcnt Hib Hlen Hpc Hc Hsrc Hne Hn Hos Hsl)|].
+  assert (L1 : (G_ibuf_cnt < length (upd m G_ibuf (push_block ib pos cnt src)))%nat) by (rewrite upd_length; assumption).
+  split.
+  { unfold term_at. repeat split; try lia.
+    - apply cell_at_upd_other; [exact L1|discriminate|]. apply cell_at_upd_other; [exact Lib|discriminate|exact Hpos].
+    - apply cell_at_upd_same. exact L1.
+    - rewrite mem_upd_other; [|exact L1|discriminate]. apply mem_upd_same. exact Lib.
+    - rewrite push_block_length by lia. exact Hlen.
+    - apply cell_at_upd_other; [exact L1|discriminate|]. apply cell_at_upd_other; [exact Lib|discriminate|exact Hip].
+    - rewrite mem_upd_other; [|exact L1|discriminate]. rewrite mem_upd_other; [exact Hic|exact Lib|discriminate]. }
+  split.
+  { unfold queue_of, InputQueue.term_push, InputQueue.filled. cbn [InputQueue.used InputQueue.ibuf InputQueue.tin InputQueue.icmd].
+    f_equal. rewrite Hur. f_equal. rewrite <- Hs. f_equal.
+    unfold unread. rewrite firstn_length, skipn_length, Hslen. unfold InputQueue.IBUF. lia. }
+  split; [rewrite Hs; exact Hur|].
+  split; [apply firstn_push_block; lia|].
+  split; [replace (Z.to_nat (cnt + k)) with (Z.to_nat cnt + length src)%nat by lia; apply skipn_push_block; lia|].
+  split; [rewrite !upd_length; [reflexivity|exact Lib|exact L1]|].
+  split; [intros b Hb1 Hb2; rewrite mem_upd_other; [|exact L1|exact Hb2]; apply mem_upd_other; [exact Lib|exact Hb1]|].
+  unfold CapDefs.t_step. cbn [CapDefs.ibuf_pos CapDefs.ibuf_cnt CapDefs.icmd_pos]. fold k.
+  destruct (Z.ltb_spec k 0); [lia|]. destruct (Z.ltb_spec (cnt - pos) 0); [lia|]. destruct (Z.ltb_spec pos 0); [lia|].
+  destruct (Z.ltb_spec IBUFSZ (pos + (cnt - pos))); [lia|]. cbn [orb].
+  destruct (Z.ltb_spec IBUFSZ (pos + k + (cnt - pos))); [lia|]. reflexivity.
+Qed.
+
+(* term_read on the C text, while a key is queued: the key at the head of the model's queue is returned (as
+   unsigned char), the queue moves as InputQueue.term_read says, the counters as CapDefs.t_step says *)
+Theorem term_read_refines m pos cnt ib ip ic z d fuel tin refill :
+  term_at m pos cnt ib ip ic -> pos < cnt -> nth_error ib (Z.to_nat pos) = Some (VInt z) -> -128 <= z <= 127 ->
+  let ip' := if ip <? ICMDSZ then ip + 1 else ip in
+  let ic' := if ip <? ICMDSZ then upd ic (Z.to_nat ip) (VInt z) else ic in
+  exists m',
+    callf cprog fuel (S d) F_term_read [] m = Ok (VInt (z mod 256), m') /\
+    term_at m' (pos + 1) cnt ib ip' ic' /\
+    InputQueue.term_read (queue_of pos cnt ib ip ic tin) = Some (VInt z, queue_of (pos + 1) cnt ib ip' ic' tin) /\
+    CapDefs.t_step (CapDefs.mkT pos cnt ip) (CapDefs.TRead refill) = CapDefs.Ok (CapDefs.mkT (pos + 1) cnt ip').
+Proof.
+  intros (Hpos & Hcnt & Hib & Hlen & Hpc & Hc & Hip & Hic & Hicl & Hipr) Hlt Hz Hzr ip' ic'.
+  assert (Lpos : (G_ibuf_pos < length m)%nat) by (apply nth_error_Some; unfold cell_at in Hpos; congruence).
+  assert (Lip : (G_icmd_pos < length m)%nat) by (apply nth_error_Some; unfold cell_at in Hip; congruence).
+  assert (Lic : (G_icmd < length m)%nat) by (apply nth_error_Some; congruence).
+  assert (G0 : forall g blk, nth_error m g = Some blk -> nth_error (m ++ [repeat VUndef 3]) g = Some blk).
+  { intros g blk H. rewrite nth_error_app1; [exact H|]. apply nth_error_Some. congruence. }
+  assert (L0 : forall g, (g < length m)%nat -> (g < length (m ++ [repeat VUndef 3]))%nat) by (intros g H; rewrite app_length; lia).
+  exists (read_mem m pos ip ic z).
+  split; [apply (tr_term_read_queued m pos cnt ib ip ic z d fuel); try assumption; unfold IBUFSZ in *; lia|].
+  split.
+  { unfold term_at, read_mem, ip', ic'. set (m1 := upd (m ++ [repeat VUndef 3]) G_ibuf_pos [VInt (pos + 1)]).
+    assert (L1 : forall g, (g < length m)%nat -> (g < length m1)%nat) by (intros g H; unfold m1; rewrite upd_length; apply L0; assumption).
+    assert (A1 : cell_at m1 G_ibuf_pos (pos + 1)) by (apply cell_at_upd_same; apply L0; exact Lpos).
+    assert (A2 : cell_at m1 G_ibuf_cnt cnt) by (apply cell_at_upd_other; [apply L0; exact Lpos|discriminate|apply G0; exact Hcnt]).
+    assert (A3 : nth_error m1 G_ibuf = Some ib) by (unfold m1; rewrite mem_upd_other; [apply G0; exact Hib|apply L0; exact Lpos|discriminate]).
+    assert (A4 : cell_at m1 G_icmd_pos ip) by (apply cell_at_upd_other; [apply L0; exact Lpos|discriminate|apply G0; exact Hip]).
+    assert (A5 : nth_error m1 G_icmd = Some ic) by (unfold m1; rewrite mem_upd_other; [apply G0; exact Hic|apply L0; exact Lpos|discriminate]).
+    destruct (Z.ltb_spec ip ICMDSZ) as [Hl|Hl].
+    - set (m2 := upd m1 G_icmd_pos [VInt (ip + 1)]).
+      assert (L2 : forall g, (g < length m)%nat -> (g < length m2)%nat) by (intros g H; unfold m2; rewrite upd_length; apply L1; assumption).
+      assert (Hul : Z.of_nat (length (upd ic (Z.to_nat ip) (VInt z))) = ICMDSZ) by (rewrite upd_length by lia; exact Hicl).
+      repeat split; try lia.
+      + apply cell_at_upd_other; [apply L2; exact Lic|discriminate|]. apply cell_at_upd_other; [apply L1; exact Lip|discriminate|exact A1].
+      + apply cell_at_upd_other; [apply L2; exact Lic|discriminate|]. apply cell_at_upd_other; [apply L1; exact Lip|discriminate|exact A2].
+      + rewrite mem_upd_other; [|apply L2; exact Lic|discriminate]. unfold m2. rewrite mem_upd_other; [exact A3|apply L1; exact Lip|discriminate].
+      + apply cell_at_upd_other; [apply L2; exact Lic|discriminate|]. apply cell_at_upd_same. apply L1; exact Lip.
+      + apply mem_upd_same. apply L2; exact Lic.
+    - repeat split; try assumption; lia. }
+  assert (Hur : unread pos cnt ib = VInt z :: unread (pos + 1) cnt ib).
+  { unfold unread. rewrite (skipn_cons_nth_error ib _ _ Hz).
+    replace (Z.to_nat (cnt - pos)) with (S (Z.to_nat (cnt - (pos + 1)))) by lia. cbn [firstn].
+    replace (Z.to_nat (pos + 1)) with (S (Z.to_nat pos)) by lia. reflexivity. }
+  split.
+  { unfold queue_of, InputQueue.term_read. cbn [InputQueue.used InputQueue.ibuf InputQueue.tin InputQueue.icmd].
+    rewrite Hur. f_equal. f_equal. replace (Z.to_nat (pos + 1)) with (S (Z.to_nat pos)) by lia. f_equal.
+    rewrite firstn_length, Nat.min_l by lia. unfold InputQueue.ICMD, ip', ic'.
+    destruct (Z.ltb_spec ip ICMDSZ) as [Hl|Hl].
+    - destruct (Nat.ltb_spec (Z.to_nat ip) (Z.to_nat ICMDSZ)); [|lia].
+      replace (Z.to_nat (ip + 1)) with (S (Z.to_nat ip)) by lia. unfold upd.
+      rewrite firstn_app, firstn_firstn, firstn_length.
+      rewrite (Nat.min_r (S (Z.to_nat ip))), (Nat.min_l (Z.to_nat ip)) by lia.
+      replace (S (Z.to_nat ip) - Z.to_nat ip)%nat with 1%nat by lia. reflexivity.
+    - destruct (Nat.ltb_spec (Z.to_nat ip) (Z.to_nat ICMDSZ)); [lia|]. reflexivity. }
+  unfold CapDefs.t_step. cbn [CapDefs.ibuf_pos CapDefs.ibuf_cnt CapDefs.icmd_pos].
+  destruct (Z.leb_spec cnt pos); [lia|]. cbn [CapDefs.ibuf_pos CapDefs.ibuf_cnt CapDefs.icmd_pos].
+  destruct (Z.ltb_spec pos cnt); [|lia]. destruct (Z.ltb_spec pos 0); [lia|].
+  destruct (Z.leb_spec IBUFSZ pos); [lia|]. cbn [andb orb CapDefs.ibuf_pos CapDefs.ibuf_cnt CapDefs.icmd_pos].
+  unfold ip'. destruct (Z.ltb_spec ip ICMDSZ); [|reflexivity]. destruct (Z.ltb_spec ip 0); [lia|]. reflexivity.
+Qed.
+
+(* term_cmd on the C text: *n = the length of the model's record, the buffer returned holds the record in its
+   first *n cells, the record restarts empty *)
+Theorem term_cmd_refines m pos cnt ib ip ic bn on nblk d fuel tin :
+  term_at m pos cnt ib ip ic -> nth_error m bn = Some nblk ->
+  bn <> G_ibuf -> bn <> G_ibuf_pos -> bn <> G_ibuf_cnt -> bn <> G_icmd -> bn <> G_icmd_pos ->
+  0 <= on < Z.of_nat (length nblk) ->
+  exists m',
+    callf cprog fuel (S d) F_term_cmd [VPtr bn on] m = Ok (VPtr G_icmd 0, m') /\
+    term_at m' pos cnt ib 0 ic /\ load m' bn on = Ok (VInt ip) /\
+    InputQueue.term_cmd (queue_of pos cnt ib ip ic tin) = (firstn (Z.to_nat ip) ic, queue_of pos cnt ib 0 ic tin) /\
+    CapDefs.t_step (CapDefs.mkT pos cnt ip) CapDefs.TCmd = CapDefs.Ok (CapDefs.mkT pos cnt 0).
+Proof.
+  intros (Hpos & Hcnt & Hib & Hlen & Hpc & Hc & Hip & Hic & Hicl & Hipr) Hn N1 N2 N3 N4 N5 Hon.
+  assert (Lb : (bn < length m)%nat) by (apply nth_error_Some; congruence).
+  assert (Lip : (G_icmd_pos < length m)%nat) by (apply nth_error_Some; unfold cell_at in Hip; congruence).
+  set (m1 := upd m bn (upd nblk (Z.to_nat on) (VInt ip))).
+  assert (L1 : (G_icmd_pos < length m1)%nat) by (unfold m1; rewrite upd_length; assumption).
+  exists (upd m1 G_icmd_pos [VInt 0]).
+  split; [apply tr_term_cmd; try assumption; unfold ICMDSZ in *; lia|].
+  split.
+  { unfold term_at. repeat split; try lia; try assumption.
+    - apply cell_at_upd_other; [exact L1|discriminate|]. apply cell_at_upd_other; [exact Lb|congruence|exact Hpos].
+    - apply cell_at_upd_other; [exact L1|discriminate|]. apply cell_at_upd_other; [exact Lb|congruence|exact Hcnt].
+    - rewrite mem_upd_other; [|exact L1|discriminate]. unfold m1. rewrite mem_upd_other; [exact Hib|exact Lb|congruence].
+    - apply cell_at_upd_same. exact L1.
+    - rewrite mem_upd_other; [|exact L1|discriminate]. unfold m1. rewrite mem_upd_other; [exact Hic|exact Lb|congruence]. }
+  split.
+  { rewrite load_upd_other_block; [|exact L1|exact N5]. apply load_upd_same; [exact Hn|exact Hon]. }
+  split; reflexivity.
+Qed.
